@@ -33,3 +33,5 @@ contract(f"{ES}::EpisodeListScheduler.__call__", props=["C04"],
 
 # "after a reset the environment behaves exactly like a newly constructed one": reset() = build + setup_for_episode, so must be __init__
 scan("C04", "built-games-are-set-up", lambda: scans.built_games_are_set_up())
+# a value cached on an object must not be computed from something a later reset replaces (e.g. spaces cached on an environment)
+scan("C04", "cached-values-stay-valid", lambda: scans.cached_values_stay_valid())
